@@ -1471,6 +1471,7 @@ int _GD_Tokenise(DIRFILE *restrict, const struct parser_state *restrict,
     const char *restrict, char **, const char **, int, char **);
 int _GD_TokToNum(const char *restrict, int, int, double*, double*, uint64_t*,
     int64_t*);
+void _GD_InvalidateAliasLists(DIRFILE *restrict, const gd_entry_t *restrict);
 void _GD_UpdateAliases(DIRFILE*, int);
 char *_GD_UpdateCode(DIRFILE *restrict, int, const char *restrict, int,
     const char *restrict, size_t, const char *restrict, size_t,
